@@ -8,6 +8,8 @@ import Driver.Up
 import Driver.Down
 import Driver.Call
 import Driver.KA
+import Driver.Conv
+import Driver.Frame
 /- Line-protocol driver: `driver <topic>` reads one op per line on stdin, prints one line per op. -/
 open Driver
 
@@ -37,4 +39,6 @@ def main (args : List String) : IO UInt32 := do
   | ["down"] => loop stdin stdout Driver.Down.step {}; return 0
   | ["call"] => loop stdin stdout Driver.Call.step {}; return 0
   | ["ka"] => loop stdin stdout Driver.KA.step (); return 0
+  | ["conv"] => loop stdin stdout Driver.Conv.step (); return 0
+  | ["frame"] => loop stdin stdout Driver.Frame.step {}; return 0
   | _ => IO.eprintln "usage: driver <topic>"; return 2
